@@ -1,6 +1,7 @@
 import Toq.Model.States
 import Toq.Spec.States
 import Toq.Proofs.States
+import Mathlib.RingTheory.RootsOfUnity.Complex
 /-!
 # C17 — named states and standard matrices satisfy their defining identities
 
@@ -160,6 +161,24 @@ theorem genPauli_trace_orthogonal [IsDomain α] (ω ωc : α) (d : Nat) (hd : 0 
     · rw [if_neg (Ne.symm h2), if_neg (fun hh => h2 hh.2)]
   · simp only [if_neg h]
     rw [sumN_zero' d _ (fun _ _ => rfl), if_neg (fun hh => h hh.1)]
+
+/-- `X^d = I`: the shift matrix has order `d`. -/
+theorem shift_pow_order (d : Nat) (hd : 0 < d) (i j : Nat) (hj : j < d) :
+    matPow d (shiftX (α := α) d) d i j = matId i j := by
+  rw [matPow_shift d hd d i j hj, Nat.add_mod_right, Nat.mod_eq_of_lt hj]
+  rfl
+
+/-- `Z^d = I`: the clock matrix has order `d` (for a `d`-th root of unity). -/
+theorem clock_pow_order (ω : α) (d : Nat) (hω : ω ^ d = 1) (i j : Nat) (hj : j < d) :
+    matPow d (clockZ ω) d i j = matId i j := by
+  rw [matPow_clock ω d d i j hj, pow_mul, hω, one_pow]
+  rfl
+
+
+/-- The hypotheses on `ω`, `ωc` are satisfiable in every dimension: `ω = exp(2πi/d) ∈ ℂ` is a primitive `d`-th
+    root of unity and `ωc = ω⁻¹` (its complex conjugate) satisfies `ω ωc = 1`. -/
+example (d : ℕ) (hd : d ≠ 0) : ∃ ω ωc : ℂ, IsPrimitiveRoot ω d ∧ ω * ωc = 1 :=
+  ⟨_, _, Complex.isPrimitiveRoot_exp d hd, mul_inv_cancel₀ ((Complex.isPrimitiveRoot_exp d hd).ne_zero hd)⟩
 
 end roots
 
@@ -466,6 +485,14 @@ theorem isotropic_UUbar_invariant {α : Type} [Field α] (d : Nat) (a : α) (U U
   rw [sumN_congr _ _ (d * d) (fun m _ => sumN_congr _ _ (d * d) (fun m' _ => by rw [hiso m m']))]
   rw [conj_rank_one, kron_row_orthonormal d U Uc hU r c hr hc, omega_UUbar_invariant d U Uc hU r hr,
     omega_UUbar_invariant d Uc U hUc c hc, hiso]
+
+/-- `RowOrthonormal` is satisfiable by a genuinely complex unitary: `U = [[0, i], [i, 0]]`, `Uc = conj U`. -/
+example : RowOrthonormal 2 (fun i j => if i = j then (0 : GI) else ⟨0, 1⟩) (fun i j => if i = j then (0 : GI) else ⟨0, -1⟩) := by
+  have h : ∀ i, i < 2 → ∀ j, j < 2 →
+      sumN 2 (fun k => (if i = k then (0 : GI) else ⟨0, 1⟩) * (if j = k then (0 : GI) else ⟨0, -1⟩))
+        = δ i j := by decide
+  intro i j hi hj
+  exact h i hi j hj
 
 /-! ## Werner and isotropic states: partial transpose in closed form -/
 
@@ -973,6 +1000,69 @@ theorem isotropic_psd_iff (d : Nat) (hd : 2 ≤ d) (a : α) :
 
 
 end ppt
+
+
+/-! ## Pauli strings, normalisations, cyclic shift, Horodecki trace -/
+
+/-- **Pauli strings are a trace-orthogonal operator basis, every number of qubits**: for index lists `l, l'` of
+    the same length `n` (entries `0..3`), `tr(P_l† P_{l'}) = 2^n` if `l = l'` and `0` otherwise
+    (`pauli([i_1, …, i_n]) = σ_{i_1} ⊗ … ⊗ σ_{i_n}`). -/
+theorem pauliString_trace_orthogonal (l l' : List Nat) (hlen : l.length = l'.length)
+    (hl : ∀ a ∈ l, a < 4) (hl' : ∀ a ∈ l', a < 4) :
+    hsInner (2 ^ l.length) (conjM (pauliList l)) (pauliList l')
+      = if l = l' then (⟨(2 : Int) ^ l.length, 0⟩ : GI) else 0 :=
+  pauliList_hs l l' hlen hl hl'
+
+/-- **GHZ normalisation**: the squared norm of the un-normalised `ghz(d, n, c)` is `Σ_i c_i²` (`= d` for the default
+    coefficients), so dividing by `‖c‖` gives a unit vector — every `d`, `n ≥ 1`. -/
+theorem ghz_norm (d n : Nat) (hn : 0 < n) (c : Nat → Int) :
+    inner (d ^ n) (ghzGen d n c) (ghzGen d n c) = sumN d (fun i => c i * c i) := by
+  show sumN (d ^ n) (fun j => pick d (ghzIdx d n) c j * pick d (ghzIdx d n) c j) = _
+  exact pick_sq_sum (d ^ n) (ghzIdx d n) c d (fun i hi => ghzIdx_lt d n i hi)
+    (fun i j hi hj h => ghzIdx_inj d n hn i j hi hj h)
+
+/-- **W-state normalisation**: the squared norm of the un-normalised, un-rounded `w_state(n, c)` is `Σ_i c_i²`
+    (`= n` for the default coefficients). -/
+theorem w_norm (n : Nat) (c : Nat → Int) :
+    inner (2 ^ n) (wGen n c) (wGen n c) = sumN n (fun i => c (n - i - 1) * c (n - i - 1)) := by
+  show sumN (2 ^ n) (fun j => pick n (fun i => 2 ^ i) (fun i => c (n - i - 1)) j
+      * pick n (fun i => 2 ^ i) (fun i => c (n - i - 1)) j) = _
+  exact pick_sq_sum (2 ^ n) (fun i => 2 ^ i) (fun i => c (n - i - 1)) n
+    (fun i hi => Nat.pow_lt_pow_right (by omega) hi)
+    (fun i j _ _ h => Nat.pow_right_injective (le_refl 2) h)
+
+/-- **Dicke normalisation**: exactly `C(n, k)` basis states have amplitude `1` in `√C(n,k)·dicke(n, k)`, so
+    `dicke(n, k)` is a unit vector — every `n`, `k`. -/
+theorem dicke_norm (n k : Nat) : inner (2 ^ n) (dickeS n k) (dickeS n k) = (choose n k : Int) :=
+  dicke_count n k
+
+/-- **Cyclic shift matrices are unitary** (permutation matrices): `P P† = I`, every `n ≥ 1`, every power `k`. -/
+theorem cyclicPerm_unitary (n k : Nat) (hn : 0 < n) : RowOrthonormal n (cyclicPerm n k) (cyclicPerm n k) := by
+  have e : cyclicPerm n k = genPauli (1 : Int) n k 0 := by
+    funext i j
+    unfold cyclicPerm genPauli
+    simp
+  rw [e]
+  exact genPauli_unitary (1 : Int) 1 n hn (by norm_num) k 0
+
+/-- **Horodecki states have trace one** (both supported dimensions), every parameter with non-zero normalisation
+    (in a field where `2 ≠ 0`). -/
+theorem horodecki_trace_one {α : Type} [Field α] (a c : α) :
+    ((2 : Nat) : α) ≠ 0 → ((8 : Nat) : α) * a + 1 ≠ 0 → trace 9 (horodecki33 a c) = 1 := by
+  intro h2 h
+  simp only [trace, sumN, horodecki33]
+  norm_num at h2 h ⊢
+  field_simp
+  ring
+
+/-- Horodecki `2 ⊗ 4` states have trace one. -/
+theorem horodecki24_trace_one {α : Type} [Field α] (a c : α) :
+    ((2 : Nat) : α) ≠ 0 → ((7 : Nat) : α) * a + 1 ≠ 0 → trace 8 (horodecki24 a c) = 1 := by
+  intro h2 h
+  simp only [trace, sumN, horodecki24]
+  norm_num at h2 h ⊢
+  field_simp
+  ring
 
 
 end Toq.C17
